@@ -9,6 +9,8 @@ import pyboolector
 
 DOMAINS = {}        # harness field index -> inferred domain [[lo, hi], ...] of the last call
 LOG = []            # events of the current call: ["new"], ["assume", ast], ["assert", ast], ["sat", bool]
+ORDER_M = [None]    # the dependency map of the RandInfoBuilder at work (C20 ordering tie)
+ORDERS = []         # per Randomizer.randomize call: {"deps": [[after, [before...]]...], "sets": [[fields, groups|None]...]}
 FIELD_ID = {}       # id(field model) -> harness field index
 
 
@@ -144,7 +146,26 @@ def install():
     FieldScalarModel.build = build
     orig_rand = rz.Randomizer.randomize
 
+    import vsc.visitors.expand_solve_order_visitor as esv
+    orig_esv_init = esv.ExpandSolveOrderVisitor.__init__
+
+    def esv_init(self, order_m=None, lhs=True):
+        orig_esv_init(self, order_m, lhs)
+        ORDER_M[0] = self.order_m          # the builder's dependency map (filled in place while the declarations are expanded)
+    esv.ExpandSolveOrderVisitor.__init__ = esv_init
+
     def randomize(self, ri, bound_m):
+        # ordering tie (C20): the dependency map and, per rand set, its fields and the groups the code derived from them
+        fid_of = lambda f: FIELD_ID.get(id(f), -1)
+        om = ORDER_M[0] or {}
+        ORDER_M[0] = None
+        try:
+            ORDERS.append({"deps": [[fid_of(a), sorted(fid_of(b) for b in bs)] for a, bs in om.items()],
+                           "sets": [[[fid_of(f) for f in rs.fields()],
+                                     None if rs.rand_order_l is None else [[fid_of(f) for f in g] for g in rs.rand_order_l]]
+                                    for rs in ri.randsets()]})
+        except Exception as e:     # noqa - never let the observation change the call
+            ORDERS.append({"error": repr(e)})
         DOMAINS.clear()
         for f, b in bound_m.items():
             fid = FIELD_ID.get(id(f), -1)
@@ -153,6 +174,12 @@ def install():
         return orig_rand(self, ri, bound_m)
     rz.Randomizer.randomize = randomize
     rz._pv_installed = True
+
+
+def take_orders():
+    l = ORDERS[:]
+    del ORDERS[:]
+    return l
 
 
 def take_log():
